@@ -307,7 +307,17 @@ Definition event (nconn : nat) (s : state) (e : sx) : option state :=
         end
       else if is "up" then
         match args with
-        | [SN k] => go s [LReconnectEnter (small k); LReconnectDone (small k)]
+        | [SN k] =>
+            let k := small k in
+            match rq s k with
+            | O => go s [LSilence k; LReconnectEnter k; LReconnectDone k]   (* nobody asked: the silence rule *)
+            | _ => go s [LReconnectEnter k; LReconnectDone k]
+            end
+        | _ => None
+        end
+      else if is "tick" then
+        match args with
+        | [SN k; SN n] => go s (repeat (LTick (small k)) (small n))
         | _ => None
         end
       else if is "reg" then
